@@ -83,7 +83,35 @@ def call(schema, op, xml):
             return len(seen) > 1          # stop validating below the second element
         errs = list(schema.iter_errors(xml, validation_hook=stop))
         return bool(errs), ("hook", keys(errs))
+    if op in ("abort", "extra_abort"):
+        # the APPLICATION's callback raises in the middle of the document (3rd element / 2nd simple value): the
+        # call is lost, but it must leave nothing behind in the schema object
+        seen = []
+
+        def boom(elem, xsd_element):
+            seen.append(elem.tag)
+            if len(seen) == 3:
+                raise Abort()
+            return False
+
+        def boom2(elem, xsd_element):
+            seen.append(elem.tag)
+            if len(seen) == 2:
+                raise Abort()
+            return iter(())
+        try:
+            if op == "abort":
+                errs = list(schema.iter_errors(xml, validation_hook=boom))
+            else:
+                errs = list(schema.iter_errors(xml, extra_validator=boom2))
+        except Abort:
+            return None, ("aborted", len(seen))
+        return bool(errs), (op, keys(errs))
     raise MachineryError(op)
+
+
+class Abort(Exception):
+    pass
 
 
 _fresh: dict = {}
@@ -125,7 +153,34 @@ def replay_history(job):
     return out
 
 
-OPS = ["is_valid", "iter_errors", "decode_lax", "validate", "lazy", "objects", "hook", "decode_skip"]
+def replay_alt_history(job):
+    """spec/HistoryAlt.tla: histories over the documents of one alternative list, on ONE Xsd11 schema object."""
+    from checks import c07
+    hist, alts = job
+    xsd = c07.xsd_alt(alts)
+    schema = load("1.1", [xsd])
+    out = []
+    for i, step in enumerate(hist):
+        xml = c07.xml_alt(dict(step["doc"], oj="absent"))
+        try:
+            got, detail = call(schema, step["op"], xml)
+            fgot, fdetail = fresh_result("1.1", (xsd,), step["op"], xml)
+        except Exception as e:      # noqa: BLE001
+            out.append((i, f"raised {type(e).__name__}: {e}"[:200], None))
+            break
+        if fgot is not None and fgot != step["fresh"]:
+            out.append((i, f"fresh schema on {xml}: invalid={fgot}, specification (intended) says {step['fresh']}",
+                        None))
+            break
+        if (got, detail) != (fgot, fdetail):
+            out.append((i, f"call {i + 1} ({step['op']} on {xml}): {got} {detail} after this history, "
+                        f"a fresh schema says {fgot} {fdetail}"[:500], None))
+            break
+    return out
+
+
+OPS = ["is_valid", "iter_errors", "decode_lax", "validate", "lazy", "objects", "hook", "decode_skip", "abort",
+       "extra_abort"]
 
 
 def pair_complete(docs, rng, rounds):
@@ -167,6 +222,11 @@ def pool_history(job):
     return out, len(steps)
 
 
+ALT_LISTS = [[["ja", "TA"], ["b", "TB"], ["default", "TC"]],
+             [["b", "TB"], ["jb", "TA"]],
+             [["nj", "TA"], ["b", "TB"], ["default", "TC"]]]        # = AltLists of spec/HistoryAlt.tla
+
+
 def run(ctx: Ctx):
     thorough = ctx.tier == "thorough"
     n = 3
@@ -186,6 +246,32 @@ def run(ctx: Ctx):
             ctx.report({"driver": "spec-history", "ver": ver, "history": h, "step": i, "observed": what},
                        f"{ver}: {what}", finding=finding)
     ctx.impl_replays = len(jobs)
+    # second scenario: type alternatives reading an inherited attribute, aborted calls (spec/HistoryAlt.tla)
+    nalt = 0
+    for al in (1, 2, 3):
+        consts = {"MaxCalls": 2, "AltList": al}
+        ctx.tlc("HistoryAlt", "HistoryAlt.cfg", constants=dict(consts, Variant='"intended"'), tag=f"alt{al}-intended")
+        for variant in ("memo", "residue"):
+            ref = ctx.tlc("HistoryAlt", "HistoryAlt.cfg", constants=dict(consts, Variant=f'"{variant}"'),
+                          expect_violation=True, count=False, tag=f"alt{al}-{variant}")
+            if "HistoryIndependent" not in ref.invariant_violated:
+                raise MachineryError(f"HistoryAlt variant {variant} is not refuted: HistoryIndependent vacuous?")
+        e = ctx.tlc("HistoryAlt", "HistoryAlt_emit.cfg",
+                    constants={"MaxCalls": 3 if thorough else 2, "AltList": al, "Variant": '"intended"'},
+                    tag=f"alt{al}-emit", count=False)
+        recs = e.json_records()
+        alts = ALT_LISTS[al - 1]
+        ahists = [r["hist"] for r in recs]
+        if thorough:
+            ahists = ahists[::5]
+        ajobs = [(h, alts) for h in ahists]
+        for (h, _), bad in zip(ajobs, ctx.pmap(replay_alt_history, ajobs)):
+            for i, what, finding in bad:
+                ctx.report({"driver": "alt-history", "ver": "1.1", "alts": alts, "history": h, "step": i,
+                            "observed": what}, f"1.1 alternatives {alts}: {what}", finding=finding)
+        nalt += len(ajobs)
+        ctx.extra[f"alt_histories_{al}"] = len(ajobs)
+    ctx.impl_replays += nalt
     # seeded histories over the pool schemas
     cases = pool.build_pool(ctx, scale=2)
     by = collections.defaultdict(list)
@@ -217,10 +303,13 @@ def run(ctx: Ctx):
     ctx.exhaustive = thorough
     ctx.rule = ("call histories of length 3 over 5 operations x 6 documents of the xsi:type/identity scenario "
                 "(27 000, every 3rd in quick) as enumerated by TLC, each replayed on one schema object and "
-                "compared step by step with a fresh schema; plus seeded histories of 8 calls (8 operations "
+                "compared step by step with a fresh schema; call histories of length 2 (thorough: 3, every 5th) over "
+                "4 operations (one of them aborted by the application's hook) x 18 documents of the type-alternative "
+                "scenario (3 alternative lists with tests on an inherited attribute, spec/HistoryAlt.tla); plus seeded histories of 8 calls (8 operations "
                 "incl. strict failures, skip-mode decoding, lazy runs, stop hooks, to_objects) over pool schemas, "
                 "plus pair-complete histories (every ordered pair of up to 6 documents of a schema as consecutive "
-                "calls, operation pairs rotating) over all simple-type schemas and a seeded selection of the others")
+                "calls, operation pairs rotating; operations include calls aborted by an exception of the application's "
+                "validation_hook / extra_validator) over all simple-type schemas and a seeded selection of the others")
     ctx.assumptions += ["the fresh schema's answer is the reference (and is itself compared with the "
                         "specification's intended verdict in the scenario)",
                         "pool content-model schemas that are not strongly deterministic are left out "
@@ -230,6 +319,9 @@ def run(ctx: Ctx):
 def replay(ctx: Ctx, case):
     if case.get("driver") == "spec-history":
         for i, what, finding in replay_history((case["history"], case["ver"])):
+            ctx.report(dict(case, observed=what), what, finding=finding)
+    elif case.get("driver") == "alt-history":
+        for i, what, finding in replay_alt_history((case["history"], case["alts"])):
             ctx.report(dict(case, observed=what), what, finding=finding)
     else:
         schema = load(case["ver"], case["xsds"])
